@@ -1,13 +1,16 @@
 import Utv.Lemmas.C15Main
 import Utv.Lemmas.C15Names
-import Utv.Lemmas.C15Build5
+import Utv.Lemmas.C15Exact2
+import Utv.Lemmas.C15Wide
 /-!
 C15 — types built from a JSON Schema never crash nor emit what the schema forbids.
 
 `parse N s`        the parser model (`Utv/Model/C15.lean`), `none` = the build raises
 `conforms R T j`   the contract of the built type on the JSON form of a value it returned
 `validate C s j`   draft 2020-12 validation (`Utv/Model/JsonSchema.lean`, cross-checked against `jsonschema`)
-`inFragment s`     the schemas the property quantifies over
+`inFragmentW s`    the schemas the property quantifies over (documents over its 26 keywords that the metaschema accepts,
+                   boolean schemas included); the theorems add `KnownDefect.emptyName s = false` (no member named "":
+                   known finding `empty-property-name`) and run on the strict `inFragment` (`narrow_json`)
 
 Soundness is stated at full strength over all schemas of the fragment, all built types, all instances, all regex
 oracles with `fullmatch ⊆ search`, all name environments; it is partial only in the decidable hypothesis
@@ -35,7 +38,10 @@ theorem sound_json (N : Names) (R : Rx) (hR : ∀ p x, R.full p x = true → R.s
       (fun k ss hm => (sound_members N R hR C hC kvs k (.arr ss) hm).2)
       (fun k ps hm => (sound_members N R hR C hC kvs k (.obj ps) hm).2)
   | .null => fun T j hf => by simp [inFragment] at hf
-  | .bool _ => fun T j hf => by simp [inFragment] at hf
+  | .bool true => fun T j _ _ _ _ => by rw [validate]
+  | .bool false => fun T j _ hp hc _ => by
+      rw [parse] at hp; cases hp
+      simp [Ty.never, conforms, conformsAny] at hc
   | .num _ => fun T j hf => by simp [inFragment] at hf
   | .str _ => fun T j hf => by simp [inFragment] at hf
   | .arr _ => fun T j hf => by simp [inFragment] at hf
@@ -84,9 +90,10 @@ What holds: the same with the decidable hypothesis that no `oneOf` the instance 
 
 theorem C15_sound_partial (N : Names) (R : Rx) (hR : ∀ p x, R.full p x = true → R.search p x = true) (C : Ctx)
     (hC : C.search = R.search) (s : Json) (T : Ty) (j : Json)
-    (hf : inFragment s = true) (hp : parse N s = some T) (hc : conforms R T j = true)
+    (hf : inFragmentW s = true) (hn : KnownDefect.emptyName s = false)
+    (hp : parse N s = some T) (hc : conforms R T j = true)
     (hk : KnownDefect.oneOfOverlap C s j = false) : validate C s j = true :=
-  sound_json N R hR C hC s T j hf hp hc (by simpa [KnownDefect.oneOfOverlap] using hk)
+  sound_json N R hR C hC s T j (narrow_json s hf hn) hp hc (by simpa [KnownDefect.oneOfOverlap] using hk)
 
 /-! schemas without `oneOf`: no hypothesis left -/
 
@@ -272,13 +279,15 @@ end
 /-- for schemas that do not use `oneOf` the property holds as stated -/
 theorem C15_sound_without_oneOf (N : Names) (R : Rx) (hR : ∀ p x, R.full p x = true → R.search p x = true) (C : Ctx)
     (hC : C.search = R.search) (s : Json) (T : Ty) (j : Json)
-    (hf : inFragment s = true) (hfree : oneOfFree s = true) (hp : parse N s = some T) (hc : conforms R T j = true) :
+    (hf : inFragmentW s = true) (hn : KnownDefect.emptyName s = false) (hfree : oneOfFree s = true)
+    (hp : parse N s = some T) (hc : conforms R T j = true) :
     validate C s j = true :=
-  sound_json N R hR C hC s T j hf hp hc (free_json C s hfree j)
+  sound_json N R hR C hC s T j (narrow_json s hf hn) hp hc (free_json C s hfree j)
 
 /-! ### the full statement is false of the parser: a value the built type accepts, the schema forbids -/
 
-def N0 : Names := ⟨fun _ => true, ["items", "keys", "copy"], fun _ => "_1"⟩
+/-- a name environment with Python's suffix `'_' + str(i)` (`pySfx`, injective: `pySfx_inj`) -/
+def N0 : Names := ⟨fun _ => true, ["items", "keys", "copy"], pySfx⟩
 def R0 : Rx := ⟨fun _ _ => true, fun _ _ => true⟩
 def C0 : Ctx := ⟨R0.search, fun _ _ => false⟩
 
@@ -288,9 +297,9 @@ exactly one branch *type*, but both branch *schemas* validate 5 (maxLength says 
 def witnessSchema : Json := .obj [("oneOf", .arr [.obj [("maxLength", .num ⟨2, 0⟩)], .obj [("type", .str "integer")]])]
 
 theorem C15_oneof_overlap_witness :
-    ∃ T, inFragment witnessSchema = true ∧ parse N0 witnessSchema = some T ∧ conforms R0 T (.num ⟨5, 0⟩) = true ∧
+    ∃ T, inFragmentW witnessSchema = true ∧ KnownDefect.emptyName witnessSchema = false ∧ parse N0 witnessSchema = some T ∧ conforms R0 T (.num ⟨5, 0⟩) = true ∧
       validate C0 witnessSchema (.num ⟨5, 0⟩) = false ∧ KnownDefect.oneOfOverlap C0 witnessSchema (.num ⟨5, 0⟩) = true :=
-  ⟨.logic .one [.rule (.prim .str) [("max_length", .num ⟨2, 0⟩)], .prim .int], by decide, rfl, by decide, by decide, by decide⟩
+  ⟨.logic .one [.rule (.prim .str) [("max_length", .num ⟨2, 0⟩)], .prim .int], by decide, by decide, rfl, by decide, by decide, by decide⟩
 
 /-! ### the hypotheses are satisfiable, and the validator tells instances apart -/
 
@@ -309,9 +318,10 @@ def sampleSchema : Json :=
 def sampleValue : Json :=
   .obj [("items", .arr [.num ⟨3, 0⟩]), ("a-b", .str "abc"), ("k", .str "y"), ("z", .bool true)]
 
-example : ∃ T, inFragment sampleSchema = true ∧ parse N0 sampleSchema = some T ∧ conforms R0 T sampleValue = true ∧
+example : ∃ T, inFragmentW sampleSchema = true ∧ KnownDefect.emptyName sampleSchema = false ∧
+    parse N0 sampleSchema = some T ∧ conforms R0 T sampleValue = true ∧
     KnownDefect.oneOfOverlap C0 sampleSchema sampleValue = false ∧ oneOfFree sampleSchema = false := by
-  refine ⟨_, by decide, rfl, by decide, by decide, by decide⟩
+  refine ⟨_, by decide, by decide, rfl, by decide, by decide, by decide⟩
 
 /-- the conclusion is not trivial: the same schema rejects a value whose tuple item is below the minimum -/
 example : validate C0 sampleSchema sampleValue = true ∧
@@ -345,33 +355,48 @@ theorem C15_contract_maxprops_witness :
     KnownDefect.maxPropsZero (.data [.mk "a" "a" .any false []] .free .any none (some ⟨0, 0⟩)) = true := by
   refine ⟨by decide, by decide⟩
 
+/-- `empty-property-name`: `{"type":"object","properties":{"":{"type":"integer"}}}` is in the (wide) fragment; the
+real class returns `{"": "x"}` (the member is additional: `Field(alias='')` is no alias), which neither conforms
+to the class the parser means nor validates -/
+theorem C15_contract_emptyname_witness :
+    inFragmentW (.obj [("type", .str "object"), ("properties", .obj [("", .obj [("type", .str "integer")])])]) = true ∧
+    KnownDefect.emptyName (.obj [("type", .str "object"), ("properties", .obj [("", .obj [("type", .str "integer")])])]) = true ∧
+    (parse N0 (.obj [("type", .str "object"), ("properties", .obj [("", .obj [("type", .str "integer")])])])).map
+      (fun T => conforms R0 T (.obj [("", .str "x")])) = some false ∧
+    validate C0 (.obj [("type", .str "object"), ("properties", .obj [("", .obj [("type", .str "integer")])])])
+      (.obj [("", .str "x")]) = false := by
+  refine ⟨by decide, by decide, by decide, by decide⟩
+
 /-! ### building succeeds
 
 Full statement (false of `Rule` as it stands, see `C15_degenerate_witness`):
 
     theorem C15_builds : inFragment s → (parse N s).isSome
 
-What holds: the same outside the decidable predicate `KnownDefect.degenerate` — the constraint sets `Rule` refuses to
-declare (an inclusive next to an exclusive bound, lower ≥ upper, int next to float bound, a float bound on a Decimal,
-an upper size bound of 0 or below the lower one, a closed tuple with its own size bounds, a const that is not an
-instance of the class built for the type). -/
+What holds, exactly: a schema of the fragment builds iff it is not `KnownDefect.degenerate` — iff no `Rule` the parser
+declares for a schema object it reaches is refused by `Rule`'s declaration checks (an inclusive next to an exclusive
+bound, lower ≥ upper, an int next to a float bound, two exclusive integer bounds with no two integers between them, a
+float bound on a Decimal, an upper size bound of 0 or below the lower one or not written as an integer, more items
+required than a closed tuple has, a const that is not an instance of the class built for the type).  Nothing else —
+not the member types, not the property names, not the combinators — can make a build raise. -/
 
 /-- the induction hypotheses a member value carries for building -/
 def DeepBuilds (N : Names) (v : Json) : Prop :=
-  SubBuilds N v ∧ (match v with
-    | .arr ss => ∀ s ∈ ss, SubBuilds N s
-    | .obj ps => ∀ p ∈ ps, SubBuilds N p.2
+  BuildsIff N v ∧ (match v with
+    | .arr ss => ∀ s ∈ ss, BuildsIff N s
+    | .obj ps => ∀ p ∈ ps, BuildsIff N p.2
     | _ => True)
 
 mutual
-theorem builds_json (N : Names) : (s : Json) → SubBuilds N s
+theorem builds_json (N : Names) : (s : Json) → BuildsIff N s
   | .obj kvs =>
-    obj_builds N kvs
+    obj_builds_iff N kvs
       (fun k v hm => (builds_members N kvs k v hm).1)
       (fun k ss hm => (builds_members N kvs k (.arr ss) hm).2)
       (fun k ps hm => (builds_members N kvs k (.obj ps) hm).2)
+  | .bool true => fun _ => by rw [parse, KnownDefect.degenerate]; simp; intro ps h; cases h
+  | .bool false => fun _ => by rw [parse, KnownDefect.degenerate]; simp; intro ps h; cases h
   | .null => fun hf => by simp [inFragment] at hf
-  | .bool _ => fun hf => by simp [inFragment] at hf
   | .num _ => fun hf => by simp [inFragment] at hf
   | .str _ => fun hf => by simp [inFragment] at hf
   | .arr _ => fun hf => by simp [inFragment] at hf
@@ -391,14 +416,14 @@ theorem builds_members (N : Names) : (kws : List (String × Json)) → ∀ k v, 
           | .str _ => trivial⟩)
       (fun h => builds_members N rest k v h)
 termination_by structural kws => kws
-theorem builds_list (N : Names) : (ss : List Json) → ∀ s ∈ ss, SubBuilds N s
+theorem builds_list (N : Names) : (ss : List Json) → ∀ s ∈ ss, BuildsIff N s
   | [], s, hm => by simp at hm
   | s' :: rest, s, hm =>
     (List.mem_cons.mp hm).elim
       (fun h => h ▸ builds_json N s')
       (fun h => builds_list N rest s h)
 termination_by structural ss => ss
-theorem builds_props (N : Names) : (ps : List (String × Json)) → ∀ p ∈ ps, SubBuilds N p.2
+theorem builds_props (N : Names) : (ps : List (String × Json)) → ∀ p ∈ ps, BuildsIff N p.2
   | [], p, hm => by simp at hm
   | (n, s') :: rest, p, hm =>
     (List.mem_cons.mp hm).elim
@@ -407,20 +432,34 @@ theorem builds_props (N : Names) : (ps : List (String × Json)) → ∀ p ∈ ps
 termination_by structural ps => ps
 end
 
-theorem C15_builds_partial (N : Names) (s : Json) (hf : inFragment s = true) (hk : KnownDefect.degenerate s = false) :
-    (parse N s).isSome = true :=
-  builds_json N s hf hk
+/-- building succeeds exactly on the schemas no reachable part of which `Rule` refuses to declare -/
+theorem C15_builds_iff (N : Names) (s : Json) (hf : inFragmentW s = true) (hn : KnownDefect.emptyName s = false) :
+    (parse N s).isSome = true ↔ KnownDefect.degenerate s = false :=
+  builds_json N s (narrow_json s hf hn)
+
+theorem C15_builds_partial (N : Names) (s : Json) (hf : inFragmentW s = true) (hn : KnownDefect.emptyName s = false)
+    (hk : KnownDefect.degenerate s = false) : (parse N s).isSome = true :=
+  (C15_builds_iff N s hf hn).mpr hk
 
 /-- `{"type": "integer", "minimum": 3, "maximum": 3}` — satisfiable (by 3), in the fragment, and `Rule` refuses it
 ("lt/le must > gt/ge") -/
 theorem C15_degenerate_witness :
-    inFragment (.obj [("type", .str "integer"), ("minimum", .num ⟨3, 0⟩), ("maximum", .num ⟨3, 0⟩)]) = true ∧
+    inFragmentW (.obj [("type", .str "integer"), ("minimum", .num ⟨3, 0⟩), ("maximum", .num ⟨3, 0⟩)]) = true ∧
     parse N0 (.obj [("type", .str "integer"), ("minimum", .num ⟨3, 0⟩), ("maximum", .num ⟨3, 0⟩)]) = none ∧
     validate C0 (.obj [("type", .str "integer"), ("minimum", .num ⟨3, 0⟩), ("maximum", .num ⟨3, 0⟩)]) (.num ⟨3, 0⟩) = true ∧
     KnownDefect.degenerate (.obj [("type", .str "integer"), ("minimum", .num ⟨3, 0⟩), ("maximum", .num ⟨3, 0⟩)]) = true := by
   refine ⟨by decide, rfl, by decide, by decide⟩
 
-example : KnownDefect.degenerate sampleSchema = false := by decide
+/-- `degenerate` is no wider than what `Rule` refuses: adjacent integer bounds, bounds on a string, a zero
+`maxLength` on an integer, `minProperties` above `maxProperties` on a class all build, and are not degenerate -/
+example : KnownDefect.degenerate sampleSchema = false ∧
+    KnownDefect.degenerate (.obj [("type", .str "integer"), ("minimum", .num ⟨0, 0⟩), ("maximum", .num ⟨1, 0⟩)]) = false ∧
+    KnownDefect.degenerate (.obj [("type", .str "string"), ("minimum", .num ⟨3, 0⟩), ("maximum", .num ⟨3, 0⟩)]) = false ∧
+    KnownDefect.degenerate (.obj [("type", .str "integer"), ("maxLength", .num ⟨0, 0⟩)]) = false ∧
+    KnownDefect.degenerate (.obj [("type", .str "object"), ("properties", .obj [("a", .obj [])]),
+      ("minProperties", .num ⟨2, 0⟩), ("maxProperties", .num ⟨1, 0⟩)]) = false ∧
+    KnownDefect.degenerate (.obj [("type", .str "string"), ("items", .obj [("minimum", .num ⟨3, 0⟩), ("maximum", .num ⟨3, 0⟩)])]) = false := by
+  refine ⟨by decide, by decide, by decide, by decide, by decide, by decide⟩
 
 /-! ### attribute names -/
 
@@ -456,5 +495,506 @@ theorem C15_attname_not_other_key (N : Names) (hinj : ∀ o a b, o ++ N.sfx a = 
   apply attnameFor_fresh N hinj taken allKeys key
   rw [h]
   simp [ho, hne]
+
+/-- the hypothesis of the two theorems above is met by Python's own suffix (and by `N0`) -/
+theorem C15_class_attributes_py (N : Names) (hs : N.sfx = pySfx) (kvs : Obj) (props : List (String × Ty)) (addK : AddK)
+    (addTy : Ty) :
+    (fieldAttrs (objectClass N kvs props addK addTy)).Nodup ∧
+    ∀ a ∈ fieldAttrs (objectClass N kvs props addK addTy), a ∉ N.reserved :=
+  C15_class_attributes N (by rw [hs]; exact pySfx_inj) kvs props addK addTy
+
+example : ∀ o a b, o ++ N0.sfx a = o ++ N0.sfx b → a = b := pySfx_inj
+
+/-- the attribute chosen for a property is an attribute name: either the property's own name, which then passes
+Python's own test (`str.isidentifier`, no keyword) and does not start with `_`, or a generated one, which is an ASCII
+identifier starting with a letter and no keyword — whatever the name was (`"1x"`, `"a-b"`, `"_a"`, `"class"`, `"-"`) -/
+theorem C15_attname_is_attribute (N : Names) (hs : N.sfx = pySfx) (taken allKeys : List String) (key : String) :
+    (attnameFor N taken allKeys key = key ∧ validAttr N key = true ∧ key.startsWith "_" = false) ∨
+    AsciiAttr (attnameFor N taken allKeys key) := by
+  unfold attnameFor
+  simp only
+  by_cases h : (!validAttr N key || key.startsWith "_" ||
+      (taken ++ allKeys.filter (· != key) ++ N.reserved).contains key) = true
+  · right
+    rw [if_pos h, hs]
+    exact getAttname_attr key _
+  · left
+    rw [if_neg h]
+    have h' := (Bool.not_eq_true _).mp h
+    rw [Bool.or_eq_false_iff, Bool.or_eq_false_iff] at h'
+    exact ⟨rfl, by simpa using h'.1.1, h'.1.2⟩
+
+/-- `C15_sound_without_oneOf` is not vacuous: a schema without oneOf, a type, a conforming value -/
+example : ∃ T, inFragmentW (.obj [("type", .str "array"), ("items", .obj [("type", .str "integer"), ("minimum", .num ⟨2, 0⟩)]),
+      ("anyOf", .arr [.obj [("maxItems", .num ⟨2, 0⟩)], .bool false])]) = true ∧
+    oneOfFree (.obj [("type", .str "array"), ("items", .obj [("type", .str "integer"), ("minimum", .num ⟨2, 0⟩)]),
+      ("anyOf", .arr [.obj [("maxItems", .num ⟨2, 0⟩)], .bool false])]) = true ∧
+    parse N0 (.obj [("type", .str "array"), ("items", .obj [("type", .str "integer"), ("minimum", .num ⟨2, 0⟩)]),
+      ("anyOf", .arr [.obj [("maxItems", .num ⟨2, 0⟩)], .bool false])]) = some T ∧
+    conforms R0 T (.arr [.num ⟨3, 0⟩]) = true := by
+  refine ⟨_, by decide, by decide, rfl, by decide⟩
+
+/-! ### every class inside a built type has proper attributes -/
+
+/-- the attributes of one class: distinct, none an attribute of the base class, each one the member's own name (then an
+identifier by Python's test, no keyword, no leading `_`) or a generated ASCII identifier that is no keyword -/
+def AttrsOk (N : Names) (fs : List Fld) : Prop :=
+  (fs.map Fld.attname).Nodup ∧ (∀ a ∈ fs.map Fld.attname, a ∉ N.reserved) ∧
+  ∀ f ∈ fs, (f.attname = f.name ∧ validAttr N f.name = true ∧ f.name.startsWith "_" = false) ∨ AsciiAttr f.attname
+
+mutual
+/-- every `Schema` subclass that occurs anywhere inside the type has `AttrsOk` attributes -/
+def ClassesOk (N : Names) (t : Ty) : Prop :=
+  match t with
+  | .any => True
+  | .anyRule => True
+  | .prim _ => True
+  | .rule b _ => ClassesOk N b
+  | .arr args => ClassesOkL N args
+  | .tup items _ addTy => ClassesOkL N items ∧ ClassesOk N addTy
+  | .map v => ClassesOk N v
+  | .logic _ ts => ClassesOkL N ts
+  | .data fields _ addTy _ _ => AttrsOk N fields ∧ ClassesOkF N fields ∧ ClassesOk N addTy
+termination_by structural t
+def ClassesOkL (N : Names) (ts : List Ty) : Prop :=
+  match ts with
+  | [] => True
+  | t :: rest => ClassesOk N t ∧ ClassesOkL N rest
+termination_by structural ts
+def ClassesOkF (N : Names) (fs : List Fld) : Prop :=
+  match fs with
+  | [] => True
+  | .mk _ _ t _ _ :: rest => ClassesOk N t ∧ ClassesOkF N rest
+termination_by structural fs
+end
+
+theorem classesOkL_iff (N : Names) : (ts : List Ty) → (ClassesOkL N ts ↔ ∀ t ∈ ts, ClassesOk N t)
+  | [] => by simp [ClassesOkL]
+  | t :: rest => by simp [ClassesOkL, classesOkL_iff N rest]
+
+theorem classesOkF_mkFields (N : Names) (req : List String) (deps : Obj) : (props : List (String × Ty)) →
+    (attnames : List String) → (∀ p ∈ props, ClassesOk N p.2) → ClassesOkF N (mkFields props attnames req deps)
+  | [], _, _ => by simp [mkFields, ClassesOkF]
+  | (n, t) :: ps, [], _ => by simp [mkFields, ClassesOkF]
+  | (n, t) :: ps, a :: as, h => by
+    simp only [mkFields, ClassesOkF]
+    exact ⟨h (n, t) (by simp), classesOkF_mkFields N req deps ps as fun p hp => h p (by simp [hp])⟩
+
+theorem classesOk_never (N : Names) : ClassesOk N Ty.never := by
+  simp [Ty.never, ClassesOk, ClassesOkL]
+
+theorem classesOk_combine (N : Names) (op : Op) (hop : op ≠ .neg) (ts : List Ty) (h : ∀ t ∈ ts, ClassesOk N t) :
+    ClassesOk N (combine op ts) := by
+  unfold combine
+  cases hca : combineArgs op ts [] with
+  | none => simp [ClassesOk]
+  | some acc =>
+    have hsub := (combineArgs_some op hop ts [] acc hca).2.1
+    have hall : ∀ t ∈ acc, ClassesOk N t := fun t ht => h t (by simpa using hsub t ht)
+    match acc, hall with
+    | [], _ => simp [ClassesOk]
+    | [t], hall =>
+      simp only
+      split
+      · simp [ClassesOk, ClassesOkL, hall t (by simp)]
+      · exact hall t (by simp)
+    | t :: u :: rest, hall =>
+      simp only [ClassesOk]
+      exact (classesOkL_iff N _).mpr hall
+
+theorem classesOk_mkRule (N : Names) (t : Ty) (cons : Cons) (r : Ty) (ht : ClassesOk N t) (h : mkRule t cons = some r) :
+    ClassesOk N r := by
+  rcases mkRule_cases t cons r h with ⟨_, rfl⟩ | ⟨_, rfl⟩ | rfl
+  · simp [ClassesOk]
+  · exact ht
+  · simpa [ClassesOk] using ht
+
+theorem classesOk_bareOrigin (N : Names) (t : Ty) (ht : ClassesOk N t) : ClassesOk N (bareOrigin t) := by
+  cases t <;> simp [bareOrigin, ClassesOk] <;> exact ht
+
+theorem classesOk_annotate (N : Names) (t : Ty) (hasArgs : Bool) (cons : Cons) (T : Ty) (ht : ClassesOk N t)
+    (h : annotate t hasArgs cons = some T) : ClassesOk N T := by
+  unfold annotate at h
+  simp only at h
+  split at h
+  · next rules heq =>
+    simp only [Option.some.injEq] at h
+    subst h
+    apply classesOk_combine N .all (by decide)
+    intro r hr
+    have hm := (allSome_mem _ rules heq r).mp hr
+    rcases List.mem_append.mp hm with h1 | h1
+    · split at h1
+      · simp only [List.mem_singleton] at h1
+        exact classesOk_mkRule N t _ r ht h1.symm
+      · simp at h1
+    · obtain ⟨c, _, hc⟩ := List.mem_map.mp h1
+      exact classesOk_mkRule N _ _ r (classesOk_bareOrigin N t ht) hc
+  · simp at h
+
+/-- the invariant of what the recursive calls returned -/
+def SubOk (N : Names) : Sub → Prop
+  | .one t => ∀ T, t = some T → ClassesOk N T
+  | .many ts => ∀ T, some T ∈ ts → ClassesOk N T
+  | .props ps => ∀ n T, (n, some T) ∈ ps → ClassesOk N T
+  | .skip => True
+
+def SubsOk (N : Names) (subs : Subs) : Prop := ∀ k sub, subs.lookup k = some sub → SubOk N sub
+
+theorem subOne_ok (N : Names) (subs : Subs) (h : SubsOk N subs) (k : String) (T : Ty) (hs : subOne subs k = some T) :
+    ClassesOk N T := by
+  unfold subOne at hs
+  split at hs
+  · next t heq => exact h k _ heq T hs
+  · simp at hs
+
+theorem subMany_ok (N : Names) (subs : Subs) (h : SubsOk N subs) (k : String) (ts : List Ty)
+    (hs : allSome (subMany subs k) = some ts) : ∀ t ∈ ts, ClassesOk N t := by
+  intro t ht
+  have hm := (allSome_mem _ ts hs t).mp ht
+  unfold subMany at hm
+  split at hm
+  · next l heq => exact h k _ heq t hm
+  · simp at hm
+
+theorem subProps_ok (N : Names) (subs : Subs) (h : SubsOk N subs) (n : String) (T : Ty)
+    (hm : (n, some T) ∈ subProps subs) : ClassesOk N T := by
+  unfold subProps at hm
+  split at hm
+  · next l heq => exact h "properties" _ heq n T hm
+  · simp at hm
+
+theorem tup_ok (N : Names) (subs : Subs) (hs : SubsOk N subs) (k : String) (args : List Ty) (a : AddK) (addTy : Ty)
+    (h1 : allSome (subMany subs k) = some args) (h2 : ClassesOk N addTy) : ClassesOk N (.tup args a addTy) := by
+  simp only [ClassesOk]
+  exact ⟨(classesOkL_iff N args).mpr (subMany_ok N subs hs k args h1), h2⟩
+
+theorem arr1_ok (N : Names) (subs : Subs) (hs : SubsOk N subs) (k : String) (t : Ty)
+    (h1 : subOne subs k = some t) : ClassesOk N (.arr [t]) := by
+  simp only [ClassesOk, ClassesOkL, and_true]
+  exact subOne_ok N subs hs k t h1
+
+theorem classesOk_parseArray (N : Names) (kvs : Obj) (subs : Subs) (cons : Cons) (T : Ty) (hs : SubsOk N subs)
+    (h : parseArray kvs subs cons = some T) : ClassesOk N T := by
+  unfold parseArray at h
+  simp only at h
+  repeat' split at h
+  all_goals first
+    | (simp at h; done)
+    | (simp only [Option.some.injEq] at h; subst h; simp [ClassesOk]; done)
+    | (refine classesOk_annotate N _ _ _ T ?_ h
+       first
+         | exact tup_ok N subs hs _ _ _ _ (by assumption) (subOne_ok N subs hs _ _ (by assumption))
+         | exact tup_ok N subs hs _ _ _ _ (by assumption) (by simp [ClassesOk])
+         | exact arr1_ok N subs hs _ _ (by assumption)
+         | (simp [ClassesOk, ClassesOkL]; done))
+
+theorem classesOk_layerEnums (N : Names) : (cons : Cons) → (cls : Ty) → ClassesOk N cls → ClassesOk N (layerEnums cons cls)
+  | [], cls, h => by simpa [layerEnums] using h
+  | c :: rest, cls, h => by
+    unfold layerEnums
+    rw [List.foldl_cons]
+    apply classesOk_layerEnums N rest
+    split
+    · simpa [ClassesOk] using h
+    · split
+      · simpa [ClassesOk] using h
+      · exact h
+
+theorem mkFields_attr (N : Names) (hs' : N.sfx = pySfx) (all : List String) (req : List String) (deps : Obj) :
+    (props : List (String × Ty)) → (taken : List String) →
+    ∀ f ∈ mkFields props (assignAttnames N all (props.map (·.1)) taken) req deps,
+      (f.attname = f.name ∧ validAttr N f.name = true ∧ f.name.startsWith "_" = false) ∨ AsciiAttr f.attname
+  | [], taken => by simp [mkFields]
+  | (n, t) :: ps, taken => by
+    simp only [List.map_cons, assignAttnames, mkFields]
+    intro f hf
+    rcases List.mem_cons.mp hf with h | h
+    · subst h
+      simpa [Fld.attname, Fld.name] using C15_attname_is_attribute N hs' taken all n
+    · exact mkFields_attr N hs' all req deps ps _ f h
+
+theorem classesOk_objectClass (N : Names) (hs' : N.sfx = pySfx) (kvs : Obj)
+    (props : List (String × Ty)) (addK : AddK) (addTy : Ty) (hp : ∀ p ∈ props, ClassesOk N p.2)
+    (ha : ClassesOk N addTy) : ClassesOk N (objectClass N kvs props addK addTy) := by
+  have h := C15_class_attributes_py N hs' kvs props addK addTy
+  unfold objectClass at h ⊢
+  simp only [ClassesOk]
+  simp only [fieldAttrs] at h
+  exact ⟨⟨h.1, h.2, mkFields_attr N hs' _ _ _ props []⟩, classesOkF_mkFields N _ _ props _ hp, ha⟩
+
+theorem implicitTy_ok (N : Names) (kvs : Obj) (subs : Subs) (hs : SubsOk N subs) (t : Ty)
+    (h : implicitTy kvs subs = some t) : ClassesOk N t := by
+  unfold implicitTy at h
+  split at h
+  · exact subOne_ok N subs hs _ t h
+  · simp only [Option.some.injEq] at h; subst h; exact classesOk_never N
+  · simp only [Option.some.injEq] at h; subst h; simp [ClassesOk]
+
+theorem additionOf_ok (N : Names) (kvs : Obj) (subs : Subs) (hs : SubsOk N subs) (a : AddK) (t : Ty)
+    (h : additionOf kvs subs = some (a, t)) : ClassesOk N t := by
+  unfold additionOf at h
+  split at h
+  · cases hso : subOne subs "additionalProperties" with
+    | none => simp [hso] at h
+    | some u =>
+      simp [hso] at h
+      rw [← h.2]
+      exact subOne_ok N subs hs _ u hso
+  · simp only [Option.some.injEq, Prod.mk.injEq] at h; rw [← h.2]; simp [ClassesOk]
+  · simp only [Option.some.injEq, Prod.mk.injEq] at h; rw [← h.2]; simp [ClassesOk]
+
+theorem mapValue_ok (N : Names) (kvs : Obj) (subs : Subs) (hs : SubsOk N subs) (t : Ty)
+    (h : mapValue kvs subs = some t) : ClassesOk N t := by
+  unfold mapValue at h
+  split at h
+  · exact subOne_ok N subs hs _ t h
+  · simp only [Option.some.injEq] at h; subst h; simp [ClassesOk]
+
+theorem declaredProps_ok (N : Names) (kvs : Obj) (subs : Subs) (hs : SubsOk N subs) (n : String) (t : Ty)
+    (h : (n, some t) ∈ declaredProps kvs subs) : ClassesOk N t := by
+  unfold declaredProps at h
+  split at h
+  · split at h
+    · exact subProps_ok N subs hs n t h
+    · simp at h
+  · simp at h
+
+theorem classesOk_parseObject (N : Names) (hs' : N.sfx = pySfx) (kvs : Obj)
+    (subs : Subs) (cons : Cons) (T : Ty) (hs : SubsOk N subs)
+    (h : parseObject N kvs subs cons = some T) : ClassesOk N T := by
+  unfold parseObject at h
+  split at h
+  · simp only [Option.some.injEq] at h; subst h; simp [ClassesOk]
+  · simp only at h
+    split at h
+    · split at h
+      · next v hv => exact classesOk_annotate N _ _ _ T (by simpa [ClassesOk] using mapValue_ok N kvs subs hs v hv) h
+      · simp at h
+    · split at h
+      · simp at h
+      · next addK addTy hadd =>
+        split at h
+        · simp at h
+        · next props hprops =>
+          simp only [Option.some.injEq] at h
+          subst h
+          apply classesOk_layerEnums
+          apply classesOk_objectClass N hs'
+          · intro p hp
+            have hm := (allSome_mem _ props hprops p).mp hp
+            obtain ⟨q, hq, hqe⟩ := List.mem_map.mp hm
+            cases hq2 : q.2 with
+            | none => simp [hq2] at hqe
+            | some t =>
+              simp [hq2] at hqe
+              rw [← hqe]
+              simp only
+              rcases List.mem_append.mp hq with h1 | h1
+              · exact declaredProps_ok N kvs subs hs q.1 t (by rw [← hq2]; exact h1)
+              · obtain ⟨n, _, hn⟩ := List.mem_map.mp h1
+                rw [← hn] at hq2
+                exact implicitTy_ok N kvs subs hs t hq2
+          · exact additionOf_ok N kvs subs hs addK addTy hadd
+
+theorem classesOk_scalarClass (N : Names) (kvs : Obj) (ty : Option String) : ClassesOk N (scalarClass kvs ty) := by
+  unfold scalarClass
+  repeat' split
+  all_goals simp [ClassesOk]
+
+theorem classesOk_constrain (N : Names) (t0 : Ty) (cons : Cons) (T : Ty) (h0 : ClassesOk N t0)
+    (h : constrain t0 cons = some T) : ClassesOk N T := by
+  unfold constrain at h
+  split at h
+  · simp only [Option.some.injEq] at h; subst h; exact h0
+  · split at h
+    · simp only [Option.some.injEq] at h
+      subst h
+      split
+      · simp [ClassesOk]
+      · exact classesOk_never N
+    · exact classesOk_annotate N _ _ _ T h0 h
+
+theorem classesOk_baseType (N : Names) (hs' : N.sfx = pySfx) (kvs : Obj)
+    (subs : Subs) (ty : Option String) (T : Ty) (hs : SubsOk N subs)
+    (h : baseType N kvs subs ty = some T) : ClassesOk N T := by
+  unfold baseType at h
+  simp only at h
+  split at h
+  · exact classesOk_parseArray N kvs subs _ T hs h
+  · split at h
+    · exact classesOk_parseObject N hs' kvs subs _ T hs h
+    · exact classesOk_constrain N _ _ T (classesOk_scalarClass N kvs _) h
+
+theorem classesOk_condGroup (N : Names) (kvs : Obj) (subs : Subs) (k : String) (op : Op) (hop : op ≠ .neg)
+    (cs : List Ty) (hs : SubsOk N subs) (h : condGroup kvs subs k op = some cs) : ∀ c ∈ cs, ClassesOk N c := by
+  unfold condGroup at h
+  split at h
+  · split at h
+    · cases ha : allSome (subMany subs k) with
+      | none => simp [ha] at h
+      | some ts =>
+        simp [ha] at h
+        subst h
+        intro c hc
+        simp only [List.mem_singleton] at hc
+        subst hc
+        exact classesOk_combine N op hop ts (subMany_ok N subs hs k ts ha)
+    · simp only [Option.some.injEq] at h; subst h; simp
+  · simp only [Option.some.injEq] at h; subst h; simp
+
+theorem classesOk_conditions (N : Names) (kvs : Obj) (subs : Subs) (cs : List Ty) (hs : SubsOk N subs)
+    (h : conditions kvs subs = some cs) : ∀ c ∈ cs, ClassesOk N c := by
+  unfold conditions at h
+  split at h
+  · next a b c ha hb hc =>
+    simp only [Option.some.injEq] at h
+    subst h
+    intro x hx
+    rcases List.mem_append.mp hx with h1 | h1
+    · rcases List.mem_append.mp h1 with h2 | h2
+      · exact classesOk_condGroup N kvs subs _ _ (by decide) a hs ha x h2
+      · exact classesOk_condGroup N kvs subs _ _ (by decide) b hs hb x h2
+    · exact classesOk_condGroup N kvs subs _ _ (by decide) c hs hc x h1
+  · simp at h
+
+theorem classesOk_assembleWith (N : Names) (hs' : N.sfx = pySfx) (kvs : Obj)
+    (subs : Subs) (ty : Option String) (T : Ty) (hs : SubsOk N subs)
+    (h : assembleWith N kvs subs ty = some T) : ClassesOk N T := by
+  unfold assembleWith at h
+  split at h
+  · simp at h
+  · next t ht =>
+    have h0 := classesOk_baseType N hs' kvs subs ty t hs ht
+    split at h
+    · simp at h
+    · simp only [Option.some.injEq] at h; subst h; exact h0
+    · next cs _ hcs =>
+      simp only [Option.some.injEq] at h
+      subst h
+      apply classesOk_combine N .all (by decide)
+      intro x hx
+      rcases List.mem_cons.mp hx with h1 | h1
+      · subst h1; exact h0
+      · exact classesOk_conditions N kvs subs cs hs hcs x h1
+
+theorem classesOk_assemble (N : Names) (hs' : N.sfx = pySfx) (kvs : Obj)
+    (subs : Subs) (T : Ty) (hs : SubsOk N subs) (h : assemble N kvs subs = some T) : ClassesOk N T := by
+  unfold assemble at h
+  split at h
+  · simp only [Option.some.injEq] at h; subst h; exact classesOk_never N
+  · split at h
+    · next ts _ =>
+      cases ha : allSome ((ts.filterMap strOf).map fun t => assembleWith N kvs subs (some t)) with
+      | none => simp [ha] at h
+      | some rs =>
+        simp [ha] at h
+        subst h
+        apply classesOk_combine N .any (by decide)
+        intro r hr
+        have hm := (allSome_mem _ rs ha r).mp hr
+        obtain ⟨t, _, ht⟩ := List.mem_map.mp hm
+        exact classesOk_assembleWith N hs' kvs subs _ r hs ht
+    · exact classesOk_assembleWith N hs' kvs subs _ T hs h
+    · exact classesOk_assembleWith N hs' kvs subs _ T hs h
+
+/-- the induction hypothesis for one sub-schema -/
+def SubClasses (N : Names) (s : Json) : Prop := ∀ T, parse N s = some T → ClassesOk N T
+
+def DeepClasses (N : Names) (v : Json) : Prop :=
+  SubClasses N v ∧ (match v with
+    | .arr ss => ∀ s ∈ ss, SubClasses N s
+    | .obj ps => ∀ p ∈ ps, SubClasses N p.2
+    | _ => True)
+
+theorem subsOk_parseKws (N : Names) (kvs : Obj) (ih : ∀ k v, (k, v) ∈ kvs → DeepClasses N v) :
+    SubsOk N (parseKws N kvs) := by
+  intro k sub hl
+  rw [parseKws_lookup] at hl
+  cases hv : lookup k kvs with
+  | none => simp [hv] at hl
+  | some v =>
+    simp only [hv, Option.map_some, Option.some.injEq] at hl
+    subst hl
+    have hd := ih k v (mem_of_lookup kvs k v hv)
+    unfold subOf
+    split
+    · intro T hT; exact hd.1 T hT
+    · split
+      · split
+        · next ss =>
+          intro T hT
+          rw [parseList_eq] at hT
+          obtain ⟨s, hs, hse⟩ := List.mem_map.mp hT
+          exact hd.2 s hs T hse
+        · trivial
+      · split
+        · split
+          · next ps =>
+            intro n T hT
+            rw [parseProps_eq] at hT
+            obtain ⟨p, hp, hpe⟩ := List.mem_map.mp hT
+            simp only [Prod.mk.injEq] at hpe
+            exact hd.2 p hp T hpe.2
+          · trivial
+        · trivial
+
+mutual
+theorem classes_json (N : Names) (hs' : N.sfx = pySfx) : (s : Json) → SubClasses N s
+  | .obj kvs => fun T hp =>
+    classesOk_assemble N hs' kvs (parseKws N kvs) T
+      (subsOk_parseKws N kvs fun k v hm => classes_members N hs' kvs k v hm) (by rw [← parse_obj]; exact hp)
+  | .null => fun T hp => by simp [parse] at hp
+  | .bool true => fun T hp => by rw [parse] at hp; cases hp; simp [ClassesOk]
+  | .bool false => fun T hp => by rw [parse] at hp; cases hp; exact classesOk_never N
+  | .num _ => fun T hp => by simp [parse] at hp
+  | .str _ => fun T hp => by simp [parse] at hp
+  | .arr _ => fun T hp => by simp [parse] at hp
+termination_by structural s => s
+theorem classes_members (N : Names) (hs' : N.sfx = pySfx) :
+    (kws : List (String × Json)) → ∀ k v, (k, v) ∈ kws → DeepClasses N v
+  | [], k, v, hm => by simp at hm
+  | (k', v') :: rest, k, v, hm =>
+    (List.mem_cons.mp hm).elim
+      (fun h =>
+        have hv : v = v' := (Prod.mk.inj h).2
+        hv ▸ ⟨classes_json N hs' v', match v' with
+          | .arr ss => classes_list N hs' ss
+          | .obj ps => classes_props N hs' ps
+          | .null => trivial
+          | .bool _ => trivial
+          | .num _ => trivial
+          | .str _ => trivial⟩)
+      (fun h => classes_members N hs' rest k v h)
+termination_by structural kws => kws
+theorem classes_list (N : Names) (hs' : N.sfx = pySfx) :
+    (ss : List Json) → ∀ s ∈ ss, SubClasses N s
+  | [], s, hm => by simp at hm
+  | s' :: rest, s, hm =>
+    (List.mem_cons.mp hm).elim
+      (fun h => h ▸ classes_json N hs' s')
+      (fun h => classes_list N hs' rest s h)
+termination_by structural ss => ss
+theorem classes_props (N : Names) (hs' : N.sfx = pySfx) :
+    (ps : List (String × Json)) → ∀ p ∈ ps, SubClasses N p.2
+  | [], p, hm => by simp at hm
+  | (n, s') :: rest, p, hm =>
+    (List.mem_cons.mp hm).elim
+      (fun h => h ▸ classes_json N hs' s')
+      (fun h => classes_props N hs' rest p h)
+termination_by structural ps => ps
+end
+
+/-- every class anywhere inside a type the parser builds — for any document whatsoever, no fragment needed — has
+pairwise distinct attributes, none of which is an attribute of the base class (with Python's `'_' + str(i)`) -/
+theorem C15_parsed_classes (N : Names) (hs : N.sfx = pySfx) (s : Json) (T : Ty) (hp : parse N s = some T) :
+    ClassesOk N T :=
+  classes_json N hs s T hp
+
+/-- not vacuous: the sample schema builds a type with two nested classes -/
+example : ∃ T, parse N0 sampleSchema = some T ∧ ClassesOk N0 T := by
+  cases h : parse N0 sampleSchema with
+  | none => exact absurd h (by decide)
+  | some T => exact ⟨T, rfl, C15_parsed_classes N0 rfl sampleSchema T h⟩
 
 end Utv.C15
